@@ -340,6 +340,22 @@ pub fn gen(seed: u64, tier: &str) -> Vec<Value> {
     let n = if tier == "thorough" { 2500 } else { 360 };
     let encs = ["gzip", "deflate", "zstd"];
     let mut out = vec![];
+    // bulk streams over h2: many equal messages, ready at once, sized so that 16384 (the h2 max frame size) falls 1..4 bytes
+    // into a length prefix of the coalesced body
+    let sizes: Vec<usize> = (50..3000).filter(|l| { let r = 16384 % (l + 5); r >= 1 && r <= 4 }).collect();
+    for j in 0..(n / 12).max(6) {
+        let l = sizes[rng.gen_range(0..sizes.len())];
+        let k = (40000 / (l + 5)).max(3);
+        let big: Vec<Value> = (0..k).map(|q| bytes_json(&(0..l).map(|x| (x + q) as u8).collect::<Vec<u8>>())).collect();
+        let shape = ["sstream", "bidi", "cstream"][j % 3];
+        let req_big = shape != "sstream";
+        let ok = rng.gen_bool(0.5);
+        let end = if ok { json!({"ok":true}) } else { json!({"ok":false,"code":10,"msg":str_json("gave up"),"details":[1,2,3],"meta":[{"n":"x-seed","bin":false,"v":[99]}]}) };
+        out.push(json!({"mode":"client","class":"h2_bulk","transport":"h2","shim":{"cap":65536,"rq":65536,"wq":65536,"pend":0},"shape":shape,
+            "server":{"send":[],"accept":[],"max_dec":-1,"max_enc":-1},"client":{"send":"","accept":[],"max_dec":-1,"max_enc":-1},
+            "req":{"meta":[],"msgs": if req_big { big.clone() } else { vec![bytes_json(&[1])] }},
+            "script":{"init_meta":[],"msgs": if shape == "cstream" { vec![bytes_json(&[2])] } else { big.clone() },"end": if shape == "cstream" { json!({"ok":true}) } else { end },"fail_before":false,"no_compress":false}}));
+    }
     for i in 0..n {
         let shape = ["unary", "cstream", "sstream", "bidi"][i % 4];
         let h2 = i % 3 == 2;
